@@ -8,7 +8,7 @@ Extraction "model.ml"
   W N.add N.mul N.div N.modulo N.sub N.eqb N.leb N.ltb N.of_nat N.to_nat
   mkCfg mkLayout mkGreq fresh step follow policy ctor_ok cfg_okb
   q_allocated_bytes q_allocated_bytes_incl q_chunk_capacity q_iter_chunks held
-  cur_ptr cur_foot cur_start
+  cur_ptr cur_foot cur_start fast_ptr
   sp_accounting apply_frees sp_block_ok sp_aligned sp_limit_ok sp_iter_ok sp_reset_ok
   sp_stores_owned sp_growth_ok sp_iter_exact footer_of lay_ok layout_ok
   mkVec mkEcfg v_cap contents vwith_capacity push pop insert remove swap_remove truncate truncate_state
